@@ -42,278 +42,202 @@ def check(src, rep):
                        "(round(v*10**s, -s) or division) on integers only; the APDU date-time is written before the element loop so the list's own clock wins, bare bodies never read the APDU; the OBIS "
                        "layout names fields through obis_name_map; manufacturer 'Kaifa'; frame and body share grammars/normalisers and the dispatch on the body type matches. "
                        "NOT decided: the float lemma and acceptance of every well-formed list.")
-    # ---------------------------------------------------------------- R1 layouts
-    from sa.decoders import normaliser_workers as _nw
-    _ws = _nw(M, MOD)
-    _fnv = next((f for f in _ws if any(isinstance(n, ast.Attribute) and n.attr == "index" for n in ast.walk(f.node))), None)
-    LISTS = None
-    if _fnv is not None:
-        for n in ast.walk(_fnv.node):
-            if isinstance(n, ast.GeneratorExp) and isinstance(n.generators[0].iter, ast.Name):
-                LISTS = n.generators[0].iter.id
-    rep.require(LISTS is not None, "cannot find the table of positional layouts consulted by the positional normaliser")
+    # ---------------------------------------------------------------- R1-R5: the public normalisers on abstract parsed lists (E-ABS)
+    from sa.abseval import AbsEval, AObj, Sym
+    from sa.decoders import obis_hook
+    from sa.sveval import Res
     try:
-        lists = ce.module_value(MOD, LISTS)
+        name_map = ce.module_value("obis_map", "obis_name_map")
+        MAN = ce.module_value("obis_map", "FIELD_METER_MANUFACTURER")
     except NotConstant as e:
-        raise Undecided(f"kaifa.{LISTS} is not a constant: {e}")
-    bad = 0
-    got = {}
-    for l in lists:
-        if len(l) in got:
-            bad += 1
-            rep.violation("R1", f"kaifa.{LISTS}", f"duplicate-length:{len(l)}", "two positional layouts have the same length (selection by length is ambiguous)", file, 1)
-        got[len(l)] = list(l)
-    for n, want in LAYOUTS.items():
-        if n not in got:
-            bad += 1
-            rep.violation("R1", f"kaifa.{LISTS}", f"layout:{n}", f"the documented {n}-element layout is missing", file, 1)
-        elif got[n] != want:
-            i = next(k for k in range(n) if got[n][k] != want[k])
-            bad += 1
-            rep.violation("R1", f"kaifa.{LISTS}", f"layout:{n}", f"the {n}-element layout differs from the documented order at position {i}: {got[n][i]!r} instead of {want[i]!r}", file, 1,
-                          witness=str(got[n]))
-    for n in got:
-        if n not in LAYOUTS:
-            bad += 1
-            rep.violation("R1", f"kaifa.{LISTS}", f"layout:{n}", f"an undocumented {n}-element layout is accepted", file, 1)
-    if not bad:
-        rep.ok("R1", "positional layouts", "five lists of 1, 9, 13, 14, 18 names equal the documented layouts (E-CONST evaluation of the slicing/concatenation)")
-    rep.count("layouts", len(got))
-    from sa.decoders import normaliser_workers
-    ws = normaliser_workers(M, MOD)
-    fnv = next((f for f in ws if any(isinstance(n, ast.Attribute) and n.attr == "index" for n in ast.walk(f.node))), None)
-    fno = next((f for f in ws if f is not fnv and any(isinstance(n, ast.Attribute) and n.attr == "obis" for n in ast.walk(f.node))), None)
-    rep.require(fnv is not None and fno is not None, f"cannot find the positional and the OBIS-tagged normaliser from the public normalize_* functions (found {[w.name for w in ws]})")
-    # selection by length
-    sel = None
-    for n in ast.walk(fnv.node):
-        if isinstance(n, ast.Call) and isinstance(n.func, ast.Name) and n.func.id == "next" and n.args and isinstance(n.args[0], ast.GeneratorExp):
-            sel = n
-    oks = False
-    if sel is not None:
-        g = sel.args[0]
-        gen = g.generators[0]
-        if isinstance(gen.iter, ast.Name) and gen.iter.id == LISTS and len(gen.ifs) == 1 and isinstance(gen.ifs[0], ast.Compare) and isinstance(gen.ifs[0].ops[0], ast.Eq):
-            sides = {ast.unparse(gen.ifs[0].left), ast.unparse(gen.ifs[0].comparators[0])}
-            oks = sides == {f"len({gen.target.id})", "len(list_items)"} and isinstance(g.elt, ast.Name) and g.elt.id == gen.target.id
-    if oks:
-        rep.ok("R1", "layout selection", "the layout whose length equals the number of list items")
+        raise Undecided(f"obis_map tables not constant: {e}")
+    fr_fn, bo_fn = M.funcs.get("kaifa.normalize_parsed_frame"), M.funcs.get("kaifa.normalize_parsed_notification")
+    rep.require(fr_fn is not None and bo_fn is not None, "anchor vanished: kaifa normalisers")
+    AE = AbsEval(M, hooks={"Obis.from_string": obis_hook})
+    try:
+        T_VALUE = AE.eval(ast.parse("KaifaBodyType.VALUE_ELEMENTS", mode="eval").body, {}, MOD)
+        T_OBIS = AE.eval(ast.parse("KaifaBodyType.OBIS_ELEMENTS", mode="eval").body, {}, MOD)
+    except NotConstant as e:
+        raise Undecided(f"kaifa.KaifaBodyType members are not constant: {e}")
+    rep.require(T_VALUE != T_OBIS, "the two body types are not distinct")
+    DT, ADT = Sym("list_clock", "datetime"), Sym("apdu_clock", "datetime")
+
+    def exact(term, reg, exp):
+        k = 10 ** -exp
+        return term in (Res("round", Res("Mult", reg, 10.0 ** exp), -exp), Res("Div", reg, k), Res("round", Res("Div", reg, k), -exp),
+                        Res("float", Res("Div", Res("Decimal", reg), k)))
+
+    def wrap(body, which):
+        if which == "body":
+            return bo_fn, body
+        return fr_fn, AObj("Container", {"information": AObj("Container", {"notification_body": body, "DateTime": AObj("Container", {"datetime": ADT})})})
+
+    shown = set()
+    counts = {"R1": 0, "R2": 0, "R3": 0, "R4": 0, "R5": 0}
+
+    def Vio(rule, tag, text, witness=None, fname=None):
+        counts[rule] += 1
+        if (rule, tag) in shown:
+            return
+        shown.add((rule, tag))
+        f_ = M.funcs.get(f"kaifa.{fname}") if fname else None
+        rep.violation(rule, f"kaifa.{fname}" if fname else "kaifa", tag, text, file, f_.node.lineno if f_ else 1, witness=witness)
+
+    und = None
+    cells = 0
+    # ---- positional layouts: every documented length x position, frame and bare body; undocumented lengths are refused
+    for n in sorted(LAYOUTS, reverse=True) + [0, 2, 5, 10, 12, 15, 17, 19]:
+        names = LAYOUTS.get(n)
+        vals = []
+        for i in range(n):
+            nm = names[i] if names else None
+            if nm == "meter_datetime":
+                vals.append(AObj("Container", {"datetime": DT}))
+            elif nm in (V, I, T):
+                vals.append(Sym(f"text{i}", "str"))
+            else:
+                vals.append(Sym(f"reg{i}", "int"))
+        items = [AObj("Container", {"index": i, "value": v}) for i, v in enumerate(vals)]
+        body = AObj("Container", {"type": T_VALUE, "list_items": items, "length": n})
+        for which in ("frame", "body"):
+            f_, arg = wrap(body, which)
+            res = AE.apply(f_, [arg])
+            desc = f"{which} with a positional list of {n} elements"
+            if res[0] in ("undecided", "branch"):
+                und = f"{desc}: {res[1]!r}"
+                break
+            if names is None:
+                if res[0] != "raise":
+                    Vio("R1", f"layout:{n}", f"an undocumented {n}-element positional list is accepted", desc)
+                continue
+            if res[0] == "raise":
+                Vio("R1", f"layout:{n}", f"the documented {n}-element layout is refused ({res[1]})", desc)
+                continue
+            got = res[1]
+            if not isinstance(got, dict):
+                und = f"{desc}: no dictionary returned"
+                break
+            want = {MAN: "Kaifa"}
+            if which == "frame":
+                want["meter_datetime"] = ADT
+            for i, nm in enumerate(names):
+                want[nm] = DT if nm == "meter_datetime" else vals[i]
+            for i, nm in enumerate(names):
+                cells += 1
+                g = got.get(nm, None)
+                if nm not in got:
+                    where = [k for k, v in got.items() if v == vals[i] or (isinstance(vals[i], Sym) and isinstance(v, Res) and vals[i] in _terms(v))]
+                    Vio("R1", f"field-name:{n}:{i}", f"position {i} of the {n}-element list is stored under {where[:1] or 'nothing'} instead of {nm!r}", desc)
+                    continue
+                if nm in SCALE:
+                    if exact(g, vals[i], SCALE[nm]):
+                        continue
+                    if g == vals[i] or any(exact(g, vals[i], e) for e in (-1, -2, -3)):
+                        Vio("R2", f"scaling:{nm}", f"field {nm!r} (position {i} of the {n}-element list) is not scaled by 10^{SCALE[nm]}", f"{desc}: stored {g!r}")
+                    else:
+                        Vio("R3", f"inexact:{nm}", "a negative power of ten is applied by multiplication without rounding to the exponent's number of digits (35 * 10**-3 -> 0.035000000000000003), or outside the idiom catalogue",
+                            f"{desc}: stored {g!r}")
+                elif nm == "meter_datetime":
+                    if g != DT:
+                        if g == ADT:
+                            Vio("R4", "clock-precedence", "the APDU date-time overrides the list's own clock element", desc)
+                        else:
+                            Vio("R4", "list-clock", "the list's own clock element is not stored as the decoded datetime", f"{desc}: stored {g!r}")
+                elif g != vals[i]:
+                    if isinstance(vals[i], Sym) and vals[i].pytype == "int":
+                        Vio("R2", f"scaling:{nm}", f"field {nm!r} (position {i} of the {n}-element list) must not be scaled", f"{desc}: stored {g!r}")
+                    else:
+                        Vio("R5", "text-not-verbatim", "a non-integer value is transformed before it is stored", f"{desc}: stored {g!r}")
+            if "meter_datetime" not in names:
+                if which == "frame" and got.get("meter_datetime") != ADT:
+                    Vio("R4", "apdu-clock-missing", "frames in the positional layout without a clock element do not get the APDU date-time as meter clock", f"{desc}: {got.get('meter_datetime')!r}")
+                if which == "body" and "meter_datetime" in got:
+                    Vio("R4", "apdu-clock-in-body", "a bare body reports a meter clock although it carries none", desc)
+            if got.get(MAN) != "Kaifa":
+                Vio("R5", "manufacturer", "the manufacturer field is not the constant 'Kaifa'", repr(got.get(MAN)))
+            extra = [k for k in got if k not in want]
+            if extra:
+                Vio("R1", "extra-fields", f"the dictionary has entries no element accounts for: {extra[:3]}", desc)
+        if und:
+            break
+    # ---- OBIS-tagged layout
+    n_obis = 0
+    if not und:
+        codes = [("1.1.0.0.5.255", Sym("mid", "str")), ("1.1.1.7.0.255", Sym("p", "int")), ("1.1.31.7.0.255", Sym("i1", "int")), ("1.1.51.7.0.255", Sym("i2", "int")), ("1.1.71.7.0.255", Sym("i3", "int")),
+                 ("1.1.32.7.0.255", Sym("u1", "int")), ("1.1.52.7.0.255", Sym("u2", "int")), ("1.1.72.7.0.255", Sym("u3", "int")), ("0.0.1.0.0.255", AObj("Container", {"datetime": DT})),
+                 ("1.1.1.8.0.255", Sym("e", "int")), ("1.1.250.251.252.255", Sym("x", "int"))]
+        items = [AObj("Container", {"obis": c, "value": v}) for c, v in codes]
+        body = AObj("Container", {"type": T_OBIS, "list_items": items, "length": len(items)})
+        for which in ("frame", "body"):
+            f_, arg = wrap(body, which)
+            res = AE.apply(f_, [arg])
+            desc = f"{which} with an OBIS-tagged list"
+            if res[0] in ("undecided", "branch"):
+                und = f"{desc}: {res[1]!r}"
+                break
+            if res[0] == "raise":
+                if res[1] == "KeyError":
+                    Vio("R5", "naming", "the common-name table is indexed without a membership test (unknown OBIS codes raise KeyError)", desc)
+                else:
+                    Vio("R5", "normaliser-raises", f"the normaliser raises {res[1]} for a well-formed {desc}", desc)
+                continue
+            got = res[1]
+            for c, v in codes:
+                n_obis += 1
+                cdr = ".".join(c.split(".")[2:5])
+                nm = name_map.get(cdr, cdr)
+                if nm not in got:
+                    Vio("R5", "naming", f"an element is not stored under {nm!r} (obis_name_map[C.D.E] when known, else C.D.E)", f"{desc}; keys {sorted(map(str, got))[:6]}")
+                    continue
+                g = got[nm]
+                if nm in SCALE:
+                    if not exact(g, v, SCALE[nm]):
+                        if g == v or any(exact(g, v, e) for e in (-1, -2, -3)):
+                            Vio("R2", f"scaling:{nm}", f"field {nm!r} is not scaled by 10^{SCALE[nm]} in the OBIS-tagged layout", f"{desc}: stored {g!r}")
+                        else:
+                            Vio("R3", f"inexact:{nm}", "a negative power of ten is applied by multiplication without rounding", f"{desc}: stored {g!r}")
+                elif isinstance(v, AObj):
+                    if g != DT:
+                        Vio("R4", "list-clock", "the clock element of the OBIS-tagged list is not stored as the decoded datetime", f"{desc}: stored {g!r}")
+                elif g != v:
+                    Vio("R2" if v.pytype == "int" else "R5", f"scaling:{nm}" if v.pytype == "int" else "text-not-verbatim", f"field {nm!r} of the OBIS-tagged list is not stored as parsed", f"{desc}: stored {g!r}")
+            if got.get(MAN) != "Kaifa":
+                Vio("R5", "manufacturer", "the manufacturer field is not the constant 'Kaifa'", repr(got.get(MAN)))
+    # ---- an unknown body type is refused
+    if not und:
+        res = AE.apply(bo_fn, [AObj("Container", {"type": Sym("other_type", "int"), "list_items": []})])
+        if res[0] == "value":
+            Vio("R5", "dispatch", "a body of an unknown type is decoded instead of being refused", "body type that is neither VALUE_ELEMENTS nor OBIS_ELEMENTS")
+    if und:
+        rep.undecide(f"R1 the kaifa normalisers are outside the interpreted subset / branch on an undetermined condition for a {und}")
     else:
-        rep.violation("R1", f"kaifa.{fnv.name}", "layout-selection", "the positional layout is not selected by len(layout) == len(list items)", file, fnv.node.lineno)
+        if not counts["R1"]:
+            rep.ok("R1", "positional layouts", f"lists of 1, 9, 13, 14, 18 elements are stored under the documented names position by position ({cells} layout x position cells, frame and bare body); other lengths are refused")
+        if not counts["R2"]:
+            rep.ok("R2", "scaling", "currents scaled 10^-3, voltages 10^-1, everything else stored as parsed, in both layouts")
+        if not counts["R3"]:
+            rep.ok("R3", "scaling idiom", "round(v * 10**s, abs(s)) or division on integers only (symbolic registers)")
+        if not counts["R4"]:
+            rep.ok("R4", "clock precedence", "the list's own clock element wins; frames without one report the APDU date-time; bare bodies never report an APDU clock")
+        if not counts["R5"]:
+            rep.ok("R5", f"OBIS-tagged layout ({n_obis} elements)", "names through obis_name_map (C.D.E for unknown codes); text verbatim; manufacturer 'Kaifa'; unknown body types are refused")
+    # ---------------------------------------------------------------- grammar side: element position, body-type tags, shared grammars, wire types
     m = w.module(MOD)
     ve = m.env.get("NotificationBodyValueElements")
     rep.require(isinstance(ve, N), "kaifa.NotificationBodyValueElements not extracted")
-    arr = next((s for s in ve.a["subs"] if isinstance(s, N) and s.name == "list_items"), None)
+    arr = next((s_ for s_ in ve.a["subs"] if isinstance(s_, N) and s_.name == "list_items"), None)
     idx_ok = False
     if arr is not None and arr.kind == "Array" and isinstance(arr.a["sub"], N) and arr.a["sub"].kind == "Struct":
-        ix = next((s for s in arr.a["sub"].a["subs"] if isinstance(s, N) and s.name == "index"), None)
+        ix = next((s_ for s_ in arr.a["sub"].a["subs"] if isinstance(s_, N) and s_.name == "index"), None)
         idx_ok = ix is not None and ix.kind == "Computed" and isinstance(ix.a["expr"], Expr) and ix.a["expr"].src.replace("construct.", "") == "this._index"
     if idx_ok:
         rep.ok("R1", "element position", "each element's index is the array index (Computed(this._index))")
     else:
         rep.violation("R1", "kaifa.NotificationBodyValueElements", "element-index", "an element's position is not its array index", file, ve.line or 1)
-    # ---------------------------------------------------------------- R2/R3: value normaliser, per layout x position
-    SCAL = None
-    for n in ast.walk(fnv.node):
-        if isinstance(n, ast.Call) and isinstance(n.func, ast.Attribute) and n.func.attr == "get" and isinstance(n.func.value, ast.Name):
-            SCAL = n.func.value.id
-    try:
-        table = ce.module_value(MOD, SCAL) if SCAL else None
-    except NotConstant:
-        table = None
-    modenv = {}
-    for k, v in ce.module_env(MOD).items():
-        if isinstance(v, (dict, list, int, str)):
-            modenv[("g", k)] = v
-    E = Engine(M)
-    node, ps = loop_body_paths(E, fnv)
-    item = None
-    for p in ps:
-        for g, _, _ in p.guards:
-            pass
-    # the loop variable
-    item = ("iter", ("g", "list_items"), node.lineno) if isinstance(node.iter, ast.Name) else None
-    rep.require(item is not None, "value-elements loop is not `for x in <local list>`")
-    cells = 0
-    badv = 0
-    for n, names in got.items():
-        for pos, name in enumerate(names):
-            env = dict(modenv)
-            env[("g", "current_list_names")] = names
-            env[("f0", item, "index")] = pos
-            hits = []
-            for p in ps:
-                ok = True
-                unknown = False
-                for g, pol, _ in p.guards:
-                    gs = strip_epoch(g)
-                    if gs[0] == "call" and gs[1] in ("hasattr", "isinstance"):
-                        continue  # depends on the element's value kind, not on the position
-                    try:
-                        if bool(_ev(gs, env)) != pol:
-                            ok = False
-                            break
-                    except CannotEval:
-                        unknown = True
-                if ok:
-                    hits.append(p)
-            want_s = SCALE.get(name)
-            for p in hits:
-                kinds = {}
-                for g, pol, _ in p.guards:
-                    gs = strip_epoch(g)
-                    if gs[0] == "call" and gs[1] == "isinstance" and "int" in show_sv(gs[2][1]):
-                        kinds["int"] = pol
-                    if gs[0] == "call" and gs[1] == "hasattr":
-                        kinds["dt"] = pol
-                if p.status == "raise":
-                    continue
-                st = setitems(p)
-                if len(st) != 1:
-                    continue
-                key, value, line = st[0]
-                cells += 1
-                try:
-                    k = _ev(key, env)
-                except CannotEval:
-                    k = None
-                if k != name and badv < 4:
-                    badv += 1
-                    rep.violation("R1", f"kaifa.{fnv.name}", f"field-name:{n}:{pos}", f"position {pos} of the {n}-element list is stored under {k!r} instead of {name!r}", file, line)
-                vsv = ("f0", item, "value")
-                if name == "meter_datetime":
-                    if value != ("f0", vsv, "datetime") and badv < 4:
-                        badv += 1
-                        rep.violation("R4", f"kaifa.{fnv.name}", "list-clock", "the list's own clock element is not stored as the decoded datetime", file, line, witness=show_sv(value)[:80])
-                    continue
-                if kinds.get("int") is False:
-                    if value != vsv and badv < 4:
-                        badv += 1
-                        rep.violation("R5", f"kaifa.{fnv.name}", "text-not-verbatim", "a non-integer value is transformed before it is stored", file, line)
-                    continue
-                # integer value: find the exponent used
-                s_used = _scale_used(value, vsv, env)
-                if s_used == "unknown":
-                    rep.undecide(f"R3 stored value expression outside the idiom catalogue: {show_sv(value)[:100]}")
-                    continue
-                kind, s_val = s_used
-                if (want_s or 0) != (s_val or 0) and badv < 4:
-                    badv += 1
-                    rep.violation("R2", f"kaifa.{fnv.name}", f"scaling:{name}", f"field {name!r} (position {pos} of the {n}-element list) is scaled by 10^{s_val or 0} instead of 10^{want_s or 0}",
-                                  file, line, witness=f"layout {n}, position {pos}")
-                elif want_s and kind not in ("round-mult", "div", "decimal") and badv < 4:
-                    badv += 1
-                    rep.violation("R3", f"kaifa.{fnv.name}", f"inexact:{name}", "a negative power of ten is applied by multiplication without rounding to the exponent's number of digits "
-                                  "(binary approximation of 10^-n, or digits lost)", file, line, witness=show_sv(value)[:100])
-    rep.count("layout_cells", cells)
-    if not badv and cells:
-        rep.ok("R2", f"{cells} layout x position cells", "each position is stored under its documented name; currents scaled 10^-3, voltages 10^-1, everything else unscaled")
-        rep.ok("R3", "scaling idiom", "round(v * 10**s, abs(s)) on integers only (exact for 32-bit registers by the float lemma); other values stored as parsed")
-    if table is not None and table != SCALE:
-        rep.violation("R2", f"kaifa.{SCAL}", "scaling-table", "the scaling table differs from currents -3 / voltages -1 / nothing else", file, 1, witness=str(table))
-    # ---------------------------------------------------------------- OBIS normaliser
-    node2, ps2 = loop_body_paths(Engine(M), fno)
-    item2 = ("iter", ("g", "list_items"), node2.lineno)
-    bado = 0
-    n2 = 0
-    try:
-        onm = ce.module_value("obis_map", "obis_name_map")
-    except NotConstant:
-        onm = {}
-    for p in ps2:
-        if p.status == "raise":
-            continue
-        st = setitems(p)
-        if len(st) != 1:
-            continue
-        key, value, line = st[0]
-        n2 += 1
-        nv = naming_verdict(key, p.guards, item2)
-        if nv:
-            bado += 1
-            rep.violation("R5", f"kaifa.{fno.name}", "naming", nv, file, line)
-    # scale per known name
-    vsv2 = ("f0", item2, "value")
-    for code, name in sorted(onm.items()):
-        for p in ps2:
-            in_map = None
-            kinds = {}
-            scale_lit = None
-            for g, pol, _ in p.guards:
-                gs = strip_epoch(g)
-                if gs[0] == "cmp" and gs[1] == "In":
-                    in_map = pol
-                if gs[0] == "call" and gs[1] == "isinstance":
-                    kinds["int"] = pol
-                if gs[0] == "call" and gs[1] == "hasattr":
-                    kinds["dt"] = pol
-            if in_map is not True or kinds.get("dt") is not False or kinds.get("int") is False:
-                continue
-            st = setitems(p)
-            if len(st) != 1:
-                continue
-            key, value, line = st[0]
-            env = dict(modenv)
-            env[key] = name  # the key expression evaluates to this name
-            # substitute: obis_name_map[cdr] -> name
-            s_used = _scale_used(_subst(value, key, ("c", name)), vsv2, env, guards=[(_subst(strip_epoch(g), key, ("c", name)), pol) for g, pol, _ in p.guards])
-            if s_used in ("unknown", "infeasible"):
-                continue
-            kind, s_val = s_used
-            want_s = SCALE.get(name)
-            if (want_s or 0) != (s_val or 0):
-                bado += 1
-                rep.violation("R2", f"kaifa.{fno.name}", f"scaling:{name}", f"field {name!r} is scaled by 10^{s_val or 0} instead of 10^{want_s or 0} in the OBIS-tagged layout", file, line)
-            elif want_s and kind not in ("round-mult", "div", "decimal"):
-                bado += 1
-                rep.violation("R3", f"kaifa.{fno.name}", f"inexact:{name}", "a negative power of ten is applied by multiplication without rounding", file, line)
-    if not bado and n2:
-        rep.ok("R5", f"OBIS-tagged layout ({n2} paths)", "names through obis_name_map with membership test; same scaling table and idiom as the positional layout; clock element stored as datetime")
-    # ---------------------------------------------------------------- R4 clock precedence
-    body = [s for s in fnv.node.body]
-    loop_i = next((i for i, s in enumerate(body) if isinstance(s, ast.For)), None)
-    apdu = [(i, s) for i, s in enumerate(body) for n in ast.walk(s) if isinstance(n, ast.Attribute) and n.attr == "datetime" and "DateTime" in ast.unparse(n) and "information" in ast.unparse(n)]
-    after = [i for i, s in apdu if loop_i is not None and i > loop_i]
-    late_names = set()
-    if loop_i is not None:
-        for s in body[loop_i + 1:]:
-            for n in ast.walk(s):
-                if isinstance(n, ast.Assign) and isinstance(n.targets[0], ast.Subscript) and "METER_DATETIME" in ast.unparse(n.targets[0]):
-                    late_names.add(n.lineno)
-    if after or late_names:
-        rep.violation("R4", f"kaifa.{fnv.name}", "clock-precedence", "the APDU date-time is written after the element loop, so it overrides the list's own clock element", file,
-                      (body[after[0]].lineno if after else min(late_names)))
-    elif apdu:
-        # guarded by the presence of the frame wrapper
-        guarded = all(any(isinstance(a, ast.If) and "information" in ast.unparse(a.test) for a in _ancestors(fnv.node, s)) or isinstance(s, ast.If) for i, s in apdu)
-        rep.ok("R4", "clock precedence", "the APDU date-time is stored before the element loop (the list's clock element, written in the loop, wins); only when the frame wrapper is present")
-    else:
-        rep.violation("R4", f"kaifa.{fnv.name}", "apdu-clock-missing", "frames in the positional layout never get the APDU date-time as meter clock", file, fnv.node.lineno)
-    # ---------------------------------------------------------------- R5 rest: manufacturer, dispatch, shared grammars, wire types
-    for fn in (fnv, fno):
-        okm = any(isinstance(d, ast.Dict) and any(isinstance(v, ast.Constant) and v.value == "Kaifa" for v in d.values) for d in ast.walk(fn.node))
-        if not okm:
-            rep.violation("R5", f"kaifa.{fn.name}", "manufacturer", "the manufacturer field is not the constant 'Kaifa'", file, fn.node.lineno)
     disp_ok = True
-    for fname in ("normalize_parsed_frame", "normalize_parsed_notification"):
-        fn = M.funcs.get(f"kaifa.{fname}")
-        if fn is None:
-            disp_ok = False
-            continue
-        pairs = []
-        for n in ast.walk(fn.node):
-            if isinstance(n, ast.If) and isinstance(n.test, ast.Compare):
-                t = ast.unparse(n.test)
-                call = [ast.unparse(c.func) for c in ast.walk(n) if isinstance(c, ast.Call) and ast.unparse(c.func) in (fnv.name, fno.name)]
-                pairs.append((t.split(".")[-1], call[0] if call else None))
-        want = {("VALUE_ELEMENTS", fnv.name), ("OBIS_ELEMENTS", fno.name)}
-        if set(pairs) != want:
-            disp_ok = False
-            rep.violation("R5", f"kaifa.{fname}", "dispatch", "the body type is not dispatched to its own normaliser", file, fn.node.lineno, witness=str(pairs))
-    # type constants in the two grammars
     oe = m.env.get("NotificationBodyObisElements")
     for g, want in ((ve, "VALUE_ELEMENTS"), (oe, "OBIS_ELEMENTS")):
-        t = next((s for s in g.a["subs"] if isinstance(s, N) and s.name == "type"), None) if isinstance(g, N) else None
+        t = next((s_ for s_ in g.a["subs"] if isinstance(s_, N) and s_.name == "type"), None) if isinstance(g, N) else None
         if t is None or want not in (t.a["expr"].src if isinstance(t.a.get("expr"), Expr) else ""):
             disp_ok = False
             rep.violation("R5", "kaifa", f"body-type:{want}", "a body grammar does not tag itself with its own type", file, 1)
@@ -321,7 +245,7 @@ def check(src, rep):
     shared = isinstance(frame, N) and isinstance(bodyg, N) and list(routes(frame, ve)) and list(routes(frame, oe)) and list(routes(bodyg, ve)) and list(routes(bodyg, oe))
     tg = parse_targets(M, MOD)
     if disp_ok and shared and tg == {"decode_frame_content": "LlcPdu", "decode_notification_body": "NotificationBody"}:
-        rep.ok("R5", "dispatch / shared grammars", "frame and body alternatives wrap the same two body grammars; each body type reaches its own normaliser; manufacturer 'Kaifa'")
+        rep.ok("R5", "dispatch / shared grammars", "frame and body alternatives wrap the same two body grammars, each tagging itself with its own type")
     elif not shared:
         rep.violation("R5", "kaifa", "frame-body", "frame and bare-body grammars do not share the body grammars", file, 1)
     wt, n_wt = wire_type_findings(w, ["cosem", MOD])
@@ -332,6 +256,16 @@ def check(src, rep):
     from sa.cross import include
     include(rep, src, "C10", {"R1", "R2", "R3", "R4", "R5"}, "R4", "the meter clock (APDU date-time or the list's own clock element) is the transmitted date-time")
     rep.floor("layout cells", cells, 40)
+
+
+def _terms(t):
+    from sa.sveval import Res
+    out = {t}
+    if isinstance(t, Res):
+        for a in t.args:
+            if isinstance(a, Res):
+                out |= _terms(a)
+    return out
 
 
 def _ancestors(root, node):
